@@ -46,6 +46,10 @@ def hist_records():
             rs("sel/other", [["string", "o"], ["varint", "n"]], ["'other'", "1"]))])
         _RECS.extend(base + [other, grouped, recs.build_record(selgrammar.SAME_NAME_OTHER_FIELDS), recs.build_record(selgrammar.SAME_NAMES_OTHER_TYPES),
                       recs.build_record(selgrammar.TWIN1), recs.build_record(selgrammar.TWIN2)])
+        # grouped records of another make-up (one Python class for all of them, another flat field list each)
+        _RECS.append(GroupedRecord("sel/grouped", [recs.build_record(rs("sel/extra", [["string", "only_here"], ["varint", "k"]], ["'a'", "3"])),
+                                                   recs.build_record(rs("sel/other", [["string", "o"], ["varint", "n"]], ["'zz'", "1"]))]))
+        _RECS.append(GroupedRecord("sel/grouped2", [recs.build_record(rs("sel/extra2", [["uri", "link"], ["string", "s"]], ["'http://h.example/d/a.txt'", "'ab'"]))]))
     return _RECS
 
 
@@ -407,7 +411,7 @@ def _run_adapter(case):
 
 def cases(tier):
     L = 4 if tier == "thorough" else 3
-    nrec = 10
+    nrec = 12
     for expr in SSEL:
         for k in range(1, L + 1):
             for hist in itertools.product(range(nrec), repeat=k):
